@@ -23,4 +23,8 @@ def run_case(c):
             R.append(call(op, dict(i, f=2), lambda: f(a, b), boolean))
             R.append(call(op, dict(i, f=1), lambda: f(a, b, True), boolean))
             R.append(call(op, dict(i, f=0), lambda: f(a, b, False), boolean))
+            # the flag given by keyword (both values), after the question has been answered with the default
+            R.append(call(op, dict(i, f=0, kw=True), lambda: f(a, b, include_fourths=False), boolean))
+            R.append(call(op, dict(i, f=1, kw=True), lambda: f(a, b, include_fourths=True), boolean))
+            R.append(call(op, dict(i, f=2, again=True), lambda: f(a, b), boolean))
     return R
